@@ -109,13 +109,13 @@ func (valdec mapDecoder) decodeListAsMap(dec *Decoder, p interface{}, tag byte) 
 		return
 	}
 	mp := reflect2.PtrOf(p)
-	count := dec.ReadInt()
-	valdec.t.UnsafeSet(mp, valdec.t.UnsafeMakeMap(count))
+	count := dec.ReadCount()
+	valdec.t.UnsafeSet(mp, valdec.t.UnsafeMakeMap(dec.prealloc(count)))
 	dec.AddReference(p)
 	kp := valdec.kt.UnsafeNew()
 	vp := valdec.vt.UnsafeNew()
 	vt := valdec.vt.Type1()
-	for i := 0; i < count; i++ {
+	for i := 0; i < count && dec.Error == nil; i++ {
 		if i > 0 {
 			// a fresh slot per entry: decoders fill pointers, slices and structs in place
 			vp = valdec.vt.UnsafeNew()
@@ -129,14 +129,14 @@ func (valdec mapDecoder) decodeListAsMap(dec *Decoder, p interface{}, tag byte) 
 
 func (valdec mapDecoder) decodeMap(dec *Decoder, p interface{}) {
 	mp := reflect2.PtrOf(p)
-	count := dec.ReadInt()
-	valdec.t.UnsafeSet(mp, valdec.t.UnsafeMakeMap(count))
+	count := dec.ReadCount()
+	valdec.t.UnsafeSet(mp, valdec.t.UnsafeMakeMap(dec.prealloc(count)))
 	dec.AddReference(p)
 	kp := valdec.kt.UnsafeNew()
 	vp := valdec.vt.UnsafeNew()
 	kt := valdec.kt.Type1()
 	vt := valdec.vt.Type1()
-	for i := 0; i < count; i++ {
+	for i := 0; i < count && dec.Error == nil; i++ {
 		if i > 0 {
 			// fresh slots per entry: decoders fill pointers, slices and structs in place
 			kp = valdec.kt.UnsafeNew()
